@@ -93,10 +93,40 @@ func (fc *FnCtx) inlineCall(s *State, x *ssa.Call, callee *ssa.Function, args []
 		s.regs[p] = args[i]
 	}
 	s.depth++
-	fc.execBlock(s, callee, callee.Blocks[0], 0, func(s2 *State, rets []Val) {
+	base := s.clone()
+	type inlRet struct {
+		s *State
+		v Val
+	}
+	var rets []inlRet
+	fc.execBlock(s, callee, callee.Blocks[0], 0, func(s2 *State, rs []Val) {
 		s2.depth--
-		k(s2, tupleOrSingle(rets, callee.Signature.Results()))
+		rets = append(rets, inlRet{s2, tupleOrSingle(rs, callee.Signature.Results())})
 	})
+	// two returns that differ only by one branch condition (if c {return a}; return b):
+	// continue once with ite(c, a, b) instead of forking the rest of the caller
+	if len(rets) == 2 && !fc.noMerge {
+		A, B := rets[0], rets[1]
+		n0 := len(base.pc)
+		if len(A.s.pc) == n0+1 && len(B.s.pc) == n0+1 {
+			c := A.s.pc[n0]
+			if B.s.pc[n0] == mkNot(c) || mkNot(B.s.pc[n0]) == c {
+				base.depth--
+				A.s.depth++ // mergeStates compares depths of A and B only
+				A.s.depth--
+				if m := fc.mergeStates(base, c, A.s, B.s); m != nil {
+					if v, ok := iteVal(c, A.v, B.v); ok {
+						m.trace = append(base.trace[:len(base.trace):len(base.trace)], "inl-merge "+callee.Name())
+						k(m, v)
+						return
+					}
+				}
+			}
+		}
+	}
+	for _, r := range rets {
+		k(r.s, r.v)
+	}
 }
 
 // ---------- builtins ----------
